@@ -9,10 +9,10 @@ TRUST = "TLC 1.8 and the CommunityModules Json reader; the harness projection/wr
 
 CHECKS = {
     "C07": dict(cat="model_checking", ref="DESIGN 8/C07",
-                text="PySem.tla gives the supported subset a reference semantics over abstract values with an external oracle. TLC enumerates every oracle script of every generated program up to a depth bound (9 quick / 11 thorough); every complete script is executed in CPython (instrumented values) on the original function and on exec(unparse(SCFG2AST(restructured AST2SCFG(f)))); TLC replays every recorded execution through the semantics and compares the sequence of value-creating events and the outcome. Pipeline outcomes are judged too (explicit refusal allowed, internal error or non-compiling output is a violation). In addition (a) every accepted program's flat graph and generated code are abstracted to their control skeleton (opaque statement / test identities) and TLC explores their PRODUCT under all test outcomes to fix-point (Skeleton.tla): all decision paths of unbounded length. Real executions are bounded in script depth; data values abstract.",
+                text="PySem.tla gives the supported subset a reference semantics over abstract values with an external oracle. TLC enumerates every oracle script of every generated program up to a depth bound (9 quick / 11 thorough); every complete script is executed in CPython (instrumented values) on the original function and on exec(unparse(SCFG2AST(restructured AST2SCFG(f)))); TLC replays every recorded execution through the semantics and compares the sequence of value-creating events and the outcome. Pipeline outcomes are judged too (explicit refusal allowed, internal error or non-compiling output is a violation). In addition (a) every accepted program's flat graph and generated code are abstracted to their control skeleton (opaque statement / test identities) and TLC explores their PRODUCT under all test outcomes to fix-point (Skeleton.tla): all decision paths of unbounded length. Real executions are bounded in script depth; data values abstract. Known findings are matched by EXPLANATION: a disagreement on a program of a documented family counts as that finding only if the execution shows exactly what the specified front end (AstImpl!RunLowered) does on that script. For syntax outside the abstract semantics (harness/exotic.py: unpacking / attribute / subscript targets, chained comparisons, constant tests, lambda, comprehensions, conditional expressions, f-strings, starred / keyword arguments, walrus, elif chains, deep nesting, functions with > 100 blocks) original and regenerated function are executed on a grid of concrete arguments and TLC compares the two recorded executions in lockstep (Equiv.tla).",
                 technique="TLC enumeration of behaviours of an executable TLA+ reference semantics (PySem.tla), replayed into the implementation, plus trace validation of the recorded executions"),
     "C08": dict(cat="model_checking", ref="DESIGN 8/C08",
-                text="Same reference semantics and scripts as C07; the third execution is a block-by-block interpreter over AST2SCFG's graph exactly as the property defines it (run the block's statements, two successors: evaluate the last expression, first successor if true; stop at a return); TLC compares events and outcome with PySem. Every operand is an oracle event, so side-effecting and raising operands are the default. In addition AstImpl.tla transcribes the front end itself: TLC checks conformance of the transcription with the real graphs and, for every program and script, that the lowered graph means what the reference semantics says (design level).",
+                text="Same reference semantics and scripts as C07; the third execution is a block-by-block interpreter over AST2SCFG's graph exactly as the property defines it (run the block's statements, two successors: evaluate the last expression, first successor if true; stop at a return); TLC compares events and outcome with PySem. Every operand is an oracle event, so side-effecting and raising operands are the default. In addition AstImpl.tla transcribes the front end itself: TLC checks conformance of the transcription with the real graphs and, for every program and script, that the lowered graph means what the reference semantics says (design level). Known findings matched by explanation (AstImpl MODE=explain) and the exotic-syntax corpus compared in lockstep (Equiv.tla), as for C07.",
                 technique="TLC enumeration of behaviours of PySem.tla replayed into a block-wise interpretation of the implementation's graph, plus trace validation"),
     "C10": dict(cat="model_checking", ref="DESIGN 8/C10",
                 text="For every generated program accepted by the pipeline the output tree of SCFG2AST is taken apart by node identity (statements of every original block, return values, if-tests, control-variable assignments) and TLC (Census.tla) checks the bag equalities: every statement exactly once, every branching test exactly once as an if condition, emitted control assignments = those of the synthetic assignment blocks, no foreign statement; compile() and the set of introduced names are recorded (the reserved-namespace classification is done by the harness). The all-paths product of Skeleton.tla (flat graph x generated code x control-variable valuation, explored to fix-point) covers what a dropped or duplicated statement does on paths no input exercises. The census is taken on a SECOND regeneration from the same restructured graph too (clauses Again/...). CodegenImpl.tla transcribes the code generator (conformance + all-paths on its own output).",
@@ -24,10 +24,10 @@ CHECKS = {
                 text="Each input is restructured with full tracing in separate processes under K values of PYTHONHASHSEED (4 quick / 16 thorough); TLC walks the runs in lockstep (Determinism.tla, self-composition) and fails at the first operation whose canonical event - names, ordered deltas, tables, counters, dictionary insertion order - differs. The decisive ingredient is the real multi-process run; TLA+ contributes the lockstep comparison. Design level: Pipeline.tla computes the result from the input graph alone (no hash seed exists in the model); the real code run in separate interpreters under other values of PYTHONHASHSEED must produce exactly the model's result (TracePipeline.tla). QueryImpl.tla explores the dominator work-list under EVERY order in which a set can be pushed.",
                 technique="TLC lockstep comparison (2-safety by self-composition, Determinism.tla) of behaviours recorded in separate processes under different hash seeds"),
     "C17": dict(cat="model_checking", ref="DESIGN 8/C17",
-                text="After every stage of every behaviour the DOT source of SCFGRenderer (and ByteFlowRenderer for bytecode graphs) is parsed into nodes, cluster tree, solid/dashed edges and label facts; TLC (Props!DrawingOK) checks them against the recorded hierarchy. TLA+ contributes the definition of the expected drawing; the DOT tokenizer is harness code in the trusted base.",
+                text="After every stage of every behaviour the DOT source of SCFGRenderer (and ByteFlowRenderer for bytecode graphs) is parsed into nodes, cluster tree, solid/dashed edges and label facts; TLC (Props!DrawingOK) checks them against the recorded hierarchy. TLA+ contributes the definition of the expected drawing; the DOT tokenizer is harness code in the trusted base. Statement text of AST blocks is part of the label clause; domain M adds value tables with 11-13 rows, odd variable names and a hand-made hierarchy whose back-edge target is nested twice above its header.",
                 technique="TLA+ contract predicate (Props!DrawingOK) evaluated by TLC on drawings recorded from the implementation"),
     "C09": dict(cat="model_checking", ref="DESIGN 8/C09",
-                text="TLC (ByteCFG.tla) enumerates every well-formed abstract instruction stream of <=4 (thorough: <=5) instructions and checks the transcription of FlowInfo against the contract (Partition, EntryOnlyAtFirst, LeaveOnlyAfterLast, SuccExact); each stream is instantiated with every conditional / unconditional / returning opcode the interpreter defines and fed to the real FlowInfo; every eligible function of ~100 std-lib modules is built by the real code under Python 3.12 and 3.11 and judged by TLC against the same contract with instruction classes from the interpreter's own opcode metadata. Clause InstrCover: what each block hands out through get_instructions is exactly the instructions of its range, in order.",
+                text="TLC (ByteCFG.tla) enumerates every well-formed abstract instruction stream of <=4 (thorough: <=5) instructions and checks the transcription of FlowInfo against the contract (Partition, EntryOnlyAtFirst, LeaveOnlyAfterLast, SuccExact); each stream is instantiated with every conditional / unconditional / returning opcode the interpreter defines and fed to the real FlowInfo; every eligible function of ~100 std-lib modules is built by the real code under Python 3.12 and 3.11 and judged by TLC against the same contract with instruction classes from the interpreter's own opcode metadata. Clause InstrCover: what each block hands out through get_instructions is exactly the instructions of its range, in order. The corpus includes the code objects of lambdas and nested definitions and 22 hand-written functions with rare bytecode shapes.",
                 technique="TLC small-scope model checking of ByteCFG.tla plus trace validation of (instruction stream, built blocks) pairs recorded from the implementation"),
     "C18": dict(cat="model_checking", ref="DESIGN 8/C18",
                 text="TLC model-checks the generator state machine (Names.tla) for Fresh, NoClobber and the inductive invariant Covered over all interleavings of requests, uses, removals and reloads from every small input (names inside the generator namespace included); every name the real generator hands out inside real restructure behaviours - plain, with a to_dict/from_dict round trip between stages, and on inputs named inside the generator's namespace - is validated by TLC step by step (NamesTrace.tla). Inputs include graphs built around a generator that has already served another graph.",
@@ -36,28 +36,28 @@ CHECKS = {
                 text="Native TLC search (Walk.tla) of the product original graph x restructured hierarchy x control-variable valuation for every recorded stage state of every behaviour, in by-name and region-wise mode, to fix-point: all decision sequences of unbounded length per instance; instances: all closed CFGs <=4 nodes, 5-node ones modulo relabelling, seeded random larger ones, std-lib bytecode CFGs. In addition, design level: ModelDump.tla writes the hierarchies that the pipeline model (Pipeline.tla, whose results equal the real code's name for name) builds from EVERY closed CFG with <=4 (thorough: <=5) nodes, and the same product exploration runs on them. A walk that cannot be steered (control variable unset / out of range / stale) is reported as a lost path too. Domain K adds dense random graphs that need >=3 head unifications.",
                 technique="TLC state-space exploration of a TLA+ product machine (Walk.tla) built from states recorded from the implementation ; the same exploration on the hierarchies computed by the pipeline model (ModelDump.tla / Pipeline.tla)"),
     "C02": dict(cat="model_checking", ref="DESIGN 8/C02",
-                text="The real pipeline is run (each stage separately, with a time cap) on every closed CFG with <=5 nodes, on seeded random larger ones and on std-lib bytecode CFGs; TLC (Accept.tla) judges every recorded outcome (NeverFails, Terminates, Completes), checks every graph against the TLA+ domain definition and certifies that the <=4-node (thorough: <=5-node) inputs are exactly ClosedCFG(N). Conformance: every primitive against its Impl transcription (TraceRestructure.tla) and - whole runs, nothing bound from the log - the result of every stage computed by TLC from the input alone (Pipeline.tla: dict order, vendored Tarjan emission order, iter_subregions order) equals the recorded state, names and counters included (TracePipeline.tla). E1: Restructure.tla model-checks that same pipeline model from every closed CFG with <=4 (thorough: <=5) nodes.",
+                text="The real pipeline is run (each stage separately, with a time cap) on every closed CFG with <=5 nodes, on seeded random larger ones and on std-lib bytecode CFGs; TLC (Accept.tla) judges every recorded outcome (NeverFails, Terminates, Completes), checks every graph against the TLA+ domain definition and certifies that the <=4-node (thorough: <=5-node) inputs are exactly ClosedCFG(N). Conformance: every primitive against its Impl transcription (TraceRestructure.tla) and - whole runs, nothing bound from the log - the result of every stage computed by TLC from the input alone (Pipeline.tla: dict order, vendored Tarjan emission order, iter_subregions order) equals the recorded state, names and counters included (TracePipeline.tla). E1: Restructure.tla model-checks that same pipeline model from every closed CFG with <=4 (thorough: <=5) nodes. Four very long / very deep graphs are restructured under the interpreter's default recursion limit; domain L.",
                 technique="TLC evaluation of the trace-end invariant on recorded behaviours plus TLC certification of the exhaustive input domain defined in TLA+ (Accept.tla, Graph!ClosedCFG) ; model checking of the pipeline model (Restructure.tla, Pipeline.tla) whose results are validated equal to the implementation's (TracePipeline.tla)"),
     "C06": dict(cat="model_checking", ref="DESIGN 8/C06",
                 text="TablesAgree evaluated by TLC on every recorded stage state; unset / out-of-range / non-successor / stale-latch control variables searched by TLC over the whole product state space of Walk.tla (the valuation is part of the state, so all reachable valuations on all paths are covered per instance). Also on histories with a to_dict/from_dict round trip between the stages, on the hierarchies of the pipeline model (design level, ModelDump.tla) and on domain K (>=3 head unifications).",
                 technique="TLC exploration of Walk.tla (valuation in the state) plus Props!TablesAgree on recorded states"),
     "C13": dict(cat="model_checking", ref="DESIGN 8/C13",
-                text="Every query of the library is run on every digraph of the exhaustive domains Q(1,3), Q(2,3), Q(3,2) (thorough: Q(3,3)) and on random larger graphs with external targets and declared back edges, for every subset / pair argument; TLC (Queries.tla) compares each recorded result with the path/set-based definition and certifies that the recorded domain is the whole TLA+ set. Impl layer (Algo.tla / QueryImpl.tla): the vendored iterative Tarjan, the DFS and _imm_doms are transcribed and checked by TLC against the definitions on every graph of QDomain(n,d) enumerated by TLC itself; the dominator work-list is a state machine whose pushes take every order (assertion never trips, terminal states = path-based dominators); the emission order of the real compute_scc equals the transcription's.",
+                text="Every query of the library is run on every digraph of the exhaustive domains Q(1,3), Q(2,3), Q(3,2) (thorough: Q(3,3)) and on random larger graphs with external targets and declared back edges, for every subset / pair argument; TLC (Queries.tla) compares each recorded result with the path/set-based definition and certifies that the recorded domain is the whole TLA+ set. Impl layer (Algo.tla / QueryImpl.tla): the vendored iterative Tarjan, the DFS and _imm_doms are transcribed and checked by TLC against the definitions on every graph of QDomain(n,d) enumerated by TLC itself; the dominator work-list is a state machine whose pushes take every order (assertion never trips, terminal states = path-based dominators); the emission order of the real compute_scc equals the transcription's. The two subset queries are also asked of the sub-graphs of regions inside restructured hierarchies (entries looked up level by level towards the root).",
                 technique="TLA+ definitions (Queries.tla, Graph.tla) as oracle, evaluated by TLC on results recorded from the implementation; exhaustive small scope"),
     "C14": dict(cat="model_checking", ref="DESIGN 8/C14",
-                text="TLC explores all histories of edit operations (Edit.tla: Impl transcription as step, EditPost contract on every transition) over every level and every ordered (P,S) choice from seed states recorded from the code; every generated state is replayed into real SCFG objects and compared (0 drift on the unchanged tree); transitions the code does not reproduce, and every edit-primitive call made by the real pipeline on the restructure domain, are judged by TLC against the contract on the real pre/post states (EditTrace.tla).",
+                text="TLC explores all histories of edit operations (Edit.tla: Impl transcription as step, EditPost contract on every transition) over every level and every ordered (P,S) choice from seed states recorded from the code; every generated state is replayed into real SCFG objects and compared (0 drift on the unchanged tree); transitions the code does not reproduce, and every edit-primitive call made by the real pipeline on the restructure domain, are judged by TLC against the contract on the real pre/post states (EditTrace.tla). Seeds always include a two-header loop, a two-exit loop and hand-made states (a target that is the back edge of one predecessor and the forward target of others; a head table with a shared target).",
                 technique="TLC model checking of edit histories (Impl => Post), replay of TLC behaviours into the implementation, trace validation of recorded primitive calls"),
     "C15": dict(cat="model_checking", ref="DESIGN 8/C15",
                 text="Write-read-write-read chains through to_dict/from_dict and to_yaml/from_yaml are recorded after every stage of every behaviour (plain and bytecode blocks, flat and restructured); TLC (RoundTrip.tla) checks that the re-read graph is the same abstract state (types, payload, ordered successors, back edges, tables, assignments, nesting, header, exiting, recorded parents), that the second dictionary equals the first and that the second read equals the first. Block names include YAML-sensitive words and characters that need quoting. Impl layer (SerialImpl.tla): DumpOf(H) equals the dictionary the real writer produced, LoadOf of it equals the re-read graph including the dict order of every level, and on the pipeline model's hierarchies Load . Dump is the identity (design level).",
                 technique="TLA+ stuttering contract (RoundTrip.tla) evaluated by TLC on round trips recorded from the implementation"),
     "C16": dict(cat="model_checking", ref="DESIGN 8/C16",
-                text="After every stage of every behaviour, list(scfg) and the concealed view of the root and of every sub-region at every depth are recorded and checked by TLC against the contract IterOK / ViewOK (Props.tla). Also on graphs EDITED after restructuring: one-step edit histories enumerated by TLC (Edit.tla) are replayed on real objects and judged by EditViews.tla. Impl layer (ViewImpl.tla): transcriptions of both iterators satisfy the contract and give exactly the recorded order.",
+                text="After every stage of every behaviour, list(scfg) and the concealed view of the root and of every sub-region at every depth are recorded and checked by TLC against the contract IterOK / ViewOK (Props.tla). Also on graphs EDITED after restructuring: one-step edit histories enumerated by TLC (Edit.tla) are replayed on real objects and judged by EditViews.tla. Impl layer (ViewImpl.tla): transcriptions of both iterators satisfy the contract and give exactly the recorded order. Views are also started at an explicit head from every item of every small level (ViewFromHead) and view objects kept from the previous stage are iterated again (ViewHeldAcrossStage). Domain M (hand-made hierarchies).",
                 technique="TLA+ contract predicates evaluated by TLC on observations recorded from the implementation (trace validation, exhaustive small scope)"),
     "C03": dict(cat="model_checking", ref="DESIGN 8/C03",
                 text="TLC evaluates the Structured clauses (Props.tla) on the final state of every behaviour recorded from the real code over all closed CFGs with <=4 nodes, 5-node ones modulo relabelling, seeded random larger ones and std-lib bytecode CFGs; small-scope exhaustive plus per-instance checking, not a proof. LoopBackEdge requires the back edge to be an edge of the latch, to name the loop's header (chain) and to be visible from the latch's level. Design level: Restructure.tla checks the same clauses on the pipeline model from every closed CFG <=4 (thorough <=5) nodes. Domain K added.",
                 technique="TLA+ contract predicates (Props!Structured) evaluated by TLC on states recorded from the implementation (trace validation, exhaustive small scope)"),
     "C04": dict(cat="model_checking", ref="DESIGN 8/C04",
-                text="TLC evaluates the WellFormed clauses (Props.tla) on the state after every stage of every recorded behaviour (same domains as C03); the first stage that breaks consistency is named.",
+                text="TLC evaluates the WellFormed clauses (Props.tla) on the state after every stage of every recorded behaviour (same domains as C03); the first stage that breaks consistency is named. Clause BackPointer: the region recorded by a region's own sub-graph (SCFG.region) must describe the live region block (name, kind, header, exiting, targets, parent). Domains L (names whose string order differs from the numeric one), K (control-heavy), V (stages driven through the sub-graph objects of the top-level regions).",
                 technique="TLA+ contract predicates (Props!WellFormed) evaluated by TLC on every recorded stage state (trace validation, exhaustive small scope)"),
     "C05": dict(cat="model_checking", ref="DESIGN 8/C05",
                 text="TLC evaluates Conserved(orig, H) (Props.tla) between the input and every later stage state of every recorded behaviour, with plain and bytecode payloads.",
